@@ -78,6 +78,8 @@ class Ctx:
         nviol = 0
         known_hit = {}
         lines = []
+        import shutil
+        shutil.rmtree(os.path.join(REPLAYS, self.pid), ignore_errors=True)
         for key, v in sorted(self.viol.items()):
             k = self._match_known(key)
             if k is not None:
@@ -88,8 +90,9 @@ class Ctx:
             os.makedirs(os.path.join(REPLAYS, self.pid), exist_ok=True)
             h = hashlib.sha256(key.encode()).hexdigest()[:12]
             path = os.path.join(REPLAYS, self.pid, h + ".json")
-            with open(path, "w") as f:
-                json.dump(dict(property=self.pid, key=key, what=v["what"], count=v["count"], replay=v["replay"]), f, indent=1, default=str)
+            if nviol <= 200:
+                with open(path, "w") as f:
+                    json.dump(dict(property=self.pid, key=key, what=v["what"], count=v["count"], replay=v["replay"]), f, indent=1, default=str)
             lines.append((path, key, v))
         for kk, d in sorted(known_hit.items()):
             print("KNOWN-FINDING: property=%s %s [%s] (%d cases)" % (self.pid, d["k"].get("what", ""), kk, d["n"]))
@@ -100,7 +103,7 @@ class Ctx:
                 print("   key=%s  (%d cases)  %s" % (key, v["count"], v["what"]))
             shown += 1
         if shown > 40:
-            print("   ... %d further violation keys (replay files written)" % (shown - 40))
+            print("   ... %d further violation keys (replay files written for the first 200)" % (shown - 40))
         cov = dict(self.cov)
         if cov["distinct_nontrivial"] > cov["evaluations"]:
             cov["distinct_nontrivial"] = cov["evaluations"]
